@@ -197,6 +197,11 @@ def _multi_case(rng: Rng):
 def gen_cases(rng: Rng, tier):
     n = dict(quick=330, thorough=4400)[tier]
     big = tier == "thorough"
+    # large, high-degree bases on a grid covering the domain: beyond its end knot every function must be EXACTLY zero (the residue of the
+    # truncated-power construction there grows like eps·((x − knot)/dx)^degree)
+    for p_, nf_ in ((5, 40), (5, 20), (5, 15), (4, 30), (4, 21), (3, 40)):
+        g_ = [Fraction(i, 32) for i in range(33)]
+        yield dict(kind="bs", p=p_, nfun=nf_, dmin="0", dmax="1", x=[rs(v) for v in g_], default_dom=(nf_ % 2 == 0), structured=True)
     # scale of the domain: B-splines on domains of tiny absolute length (2^-20 ~ 1e-6, 2^-30 ~ 1e-9, [2e-7, 5e-7]) and on unit-length
     # domains at a large offset (±2^20 ~ 1e6), with points on, a few ulps and h/64, h/2^16 left / right of every knot; the
     # tolerances are relative to the domain's own scale (knot-index coordinate), so absolute thresholds in the code show up
@@ -1001,6 +1006,11 @@ def _oracle_bs(V, xs, a, b, nfun, p, entry, bad, row0=0):
             return
         if a <= x <= b and abs(sum(col) - 1) > tol * (p + 1):
             bad("partition_of_unity", f"functions sum to {sum(col)!r} at x={float(x)!r} in [{fa},{fb}]", entry)
+            return
+        beyond = [j for j in range(nfun) if col[j] != 0.0 and x > knots[j + p + 1] + h / 2 ** 20]
+        if beyond:
+            bad("local_support", f"function {beyond[0]} is {col[beyond[0]]!r} (not exactly 0) at x={float(x)!r}, beyond its end knot {float(knots[beyond[0] + p + 1])!r}: "
+                f"{sum(1 for v in col if v != 0.0)} non-zero functions at this point (degree {p})", entry)
             return
         nz = [j for j in range(nfun) if abs(col[j]) > tol]
         if len(nz) > p + 1:
